@@ -15,7 +15,7 @@ from supervisor import events, rpcinterface, xmlrpc
 from supervisor.states import ProcessStates, SupervisorStates
 from supervisor.tests.base import (DummyOptions, DummyPConfig, DummyPGroupConfig, DummyProcess,
                                    DummyProcessGroup, DummySupervisor)
-from supervisor.options import NotFound, NotExecutable, BadCommand
+from supervisor.options import NotFound, NotExecutable, BadCommand, NoPermission
 from rpcstack import RpcStack
 
 FIXED_NOW = 1700000000
@@ -57,6 +57,8 @@ class StubProcess(DummyProcess):
             raise NotExecutable('not executable')
         if self.quirk == 'badcommand':
             raise BadCommand('command is empty')
+        if self.quirk == 'noperm':
+            raise NoPermission('no permission to run command')
         return DummyProcess.get_execv_args(self)
 
     def spawn(self):
@@ -205,7 +207,7 @@ VARIANTS = [
     [('g1', 'p1', S.STOPPED, 'notfound', 2, 1), ('g1', 'p2', S.EXITED, 'diesstarting', 2, 1),
      ('g2', 'q1', S.RUNNING, 'epipe', 1, 1), ('solo', 'solo', S.RUNNING, 'stopfails', 1, 1)],
     [('g1', 'p1', S.STOPPED, 'notexec', 2, 1), ('g1', 'p2', S.FATAL, 'badcommand', 2, 1),
-     ('g2', 'q1', S.STOPPED, 'clearfails', 1, 1), ('solo', 'solo', S.STOPPED, None, 3, 1)],
+     ('g2', 'q1', S.STOPPED, 'clearfails', 1, 1), ('solo', 'solo', S.STOPPED, 'noperm', 3, 1)],
     # non-ASCII group/process names: they travel in result structs and fault
     # strings, on the immediate and on the deferred path
     [(u'gr\u00fc', u'pr\u00f6', S.STOPPED, None, 2, 1), (u'gr\u00fc', u'di\u00e9', S.STOPPED, 'diesstarting', 1, 1),
@@ -262,6 +264,20 @@ class World(object):
 
     def new_process(self, pconfig):
         return StubProcess(pconfig, ProcessStates.STOPPED, self)
+
+    def add_processes(self, n, group=None):
+        """n more stopped processes in `group` (large getAllProcessInfo / start-all answers)."""
+        if group is None:
+            group = sorted(self.supervisord.process_groups)[0]
+        g = self.supervisord.process_groups[group]
+        cls = type(g.config.process_configs[0])
+        for i in range(n):
+            pc = cls(self.options, 'w%03d' % i, '/bin/cat', priority=100 + i, startsecs=2)
+            g.config.process_configs.append(pc)
+            g.processes[pc.name] = self.new_process(pc)
+
+    def use_big_log(self, name='big.log'):
+        self.options.logfile = os.path.join(self.logdir, name)
 
     # -- the daemon's main loop, one pass
     def tick(self):
@@ -361,9 +377,20 @@ def write_logs(logdir):
         'bad.out': b'ok\xff\xfe binary \x80 tail',                   # never valid UTF-8 as a whole
         'solo.out': b'',
     }
+    line = u'2026-01-01 12:00:00,000 INFO caf\u00e9 \u20ac %04d spawned: \'p\' with pid 1234\n'
+    files['mid.log'] = u''.join(line % i for i in range(75)).encode('utf-8')[:5000].decode('utf-8', 'ignore').encode('utf-8')
+    files['big.log'] = u''.join(line % i for i in range(900)).encode('utf-8')
     for n, b in files.items():
         with open(os.path.join(logdir, n), 'wb') as f:
             f.write(b)
+    # commands for the real-process layouts (get_execv_args / check_execv_args are the real ones)
+    for n, mode in (('cmd_ok', 0o755), ('cmd_notexec', 0o644), ('cmd_noperm', 0o755)):
+        pth = os.path.join(logdir, n)
+        with open(pth, 'wb') as f:
+            f.write(b'#!/bin/sh\nexec cat\n')
+        os.chmod(pth, mode)
+    os.makedirs(os.path.join(logdir, 'cmd_dir'), exist_ok=True)
+    os.chmod(os.path.join(logdir, 'cmd_dir'), 0o755)
     return files
 
 
@@ -396,11 +423,34 @@ def install_clock():
         _sproc.time = _Clock()
 
 
+class _OsProxy(object):
+    """`os` as supervisor.options sees it: access() denies execution of any path
+    containing 'noperm' (execute bits set, but not for the daemon's user)."""
+
+    def access(self, path, mode):
+        if 'noperm' in str(path) and (mode & os.X_OK):
+            return False
+        return os.access(path, mode)
+
+    def __getattr__(self, name):
+        return getattr(os, name)
+
+
+def install_os_proxy():
+    from supervisor import options as _sopt
+    if not isinstance(_sopt.os, _OsProxy):
+        _sopt.os = _OsProxy()
+
+
 class RealOptions(StubOptions):
     def __init__(self, world):
         StubOptions.__init__(self, world)
         self.nextpid = 3000
         self.eperm = set()
+
+    def check_execv_args(self, filename, argv, st):
+        from supervisor.options import ServerOptions
+        return ServerOptions.check_execv_args(self, filename, argv, st)       # the real one
 
     def fork(self):
         self.nextpid += 1
@@ -434,6 +484,11 @@ REAL_VARIANTS = [
      ('solo', 'solo', S.UNKNOWN, None)],
     [('g1', 'p1', S.STOPPING, None), ('g1', 'p2', S.RUNNING, 'eperm'), ('g2', 'q1', S.STOPPING, None),
      ('solo', 'solo', S.STARTING, None)],
+    # commands the daemon cannot run: missing, not executable, a directory, execute bit set but access denied
+    [('g1', 'p1', S.STOPPED, 'cmd:cmd_missing'), ('g1', 'p2', S.STOPPED, 'cmd:cmd_notexec -v'),
+     ('g2', 'q1', S.STOPPED, 'cmd:cmd_dir'), ('solo', 'solo', S.STOPPED, 'cmd:cmd_noperm --flag')],
+    [('g1', 'p1', S.EXITED, 'cmd:cmd_noperm'), ('g1', 'p2', S.FATAL, 'cmd:cmd_missing'),
+     ('g2', 'q1', S.BACKOFF, 'cmd:cmd_dir'), ('solo', 'solo', S.STOPPED, "rawcmd:cat 'unbalanced")],
 ]
 
 
@@ -444,6 +499,7 @@ class RealWorld(World):
 
     def __init__(self, logdir, variant=0, mood=SupervisorStates.RUNNING):
         install_clock()
+        install_os_proxy()
         self.clock = FIXED_NOW
         _ACTIVE[0] = self
         self.effects = []
@@ -460,7 +516,12 @@ class RealWorld(World):
         for k, (g, p, state, quirk) in enumerate(REAL_VARIANTS[variant % len(REAL_VARIANTS)]):
             logs = {'p1': ('p1.out', 'p1.err'), 'p2': ('bad.out', None), 'q1': (None, 'absent.err'),
                     'solo': ('solo.out', 'p1.err')}[p]
-            pc = RealPConfig(opts, p, '/bin/cat', priority=10 + k, startsecs=2, stopwaitsecs=10,
+            command = '/bin/cat'
+            if quirk and quirk.startswith('cmd:'):
+                command = os.path.join(logdir, quirk[4:])
+            elif quirk and quirk.startswith('rawcmd:'):
+                command = quirk[7:]
+            pc = RealPConfig(opts, p, command, priority=10 + k, startsecs=2, stopwaitsecs=10,
                              stdout_logfile=logs[0] and os.path.join(logdir, logs[0]),
                              stderr_logfile=logs[1] and os.path.join(logdir, logs[1]))
             if g not in gconfigs:
